@@ -952,8 +952,7 @@ Proof.
   intros Hx Hz. pose proof p_pos as Hp.
   apply mulm_eq_of_eqm; [exact Hp|exact Hx|].
   assert (Hzz : eqm sm2_p (z * zi) 1).
-  { unfold eqm. rewrite Z.mul_mod, Z.mod_mod by lia. rewrite <- Z.mul_mod by lia.
-    rewrite <- Hz. rewrite Z.mul_mod_idemp_l by lia. reflexivity. }
+  { unfold eqm. rewrite <- Hz. rewrite Z.mul_mod_idemp_l by lia. reflexivity. }
   eapply eqm_trans.
   - apply eqm_mul; [exact Hp| |apply mulm_eqm; exact Hp].
     apply mulm_eqm2; [exact Hp|apply eqm_refl|apply mulm_eqm; exact Hp].
@@ -969,8 +968,7 @@ Proof.
   intros Hy Hz. pose proof p_pos as Hp.
   apply mulm_eq_of_eqm; [exact Hp|exact Hy|].
   assert (Hzz : eqm sm2_p (z * zi) 1).
-  { unfold eqm. rewrite Z.mul_mod, Z.mod_mod by lia. rewrite <- Z.mul_mod by lia.
-    rewrite <- Hz. rewrite Z.mul_mod_idemp_l by lia. reflexivity. }
+  { unfold eqm. rewrite <- Hz. rewrite Z.mul_mod_idemp_l by lia. reflexivity. }
   eapply eqm_trans.
   - apply eqm_mul; [exact Hp| |apply mulm_eqm; exact Hp].
     apply mulm_eqm2; [exact Hp| |apply eqm_refl].
@@ -990,6 +988,12 @@ Proof.
     apply Some_inj in H. injection H as <- _. cbn [length]. f_equal. eapply IH, E.
 Qed.
 
+Lemma nth_map_seq {A} (f : nat -> A) d N i : (i < N)%nat -> nth i (map f (seq 0 N)) d = f i.
+Proof.
+  intros H. rewrite (nth_indep _ d (f 0%nat)) by (rewrite map_length, seq_length; exact H).
+  rewrite (map_nth f (seq 0 N) 0%nat i), seq_nth by exact H. reflexivity.
+Qed.
+
 Lemma list_as_map_nth {A} (d : A) (l : list A) : l = map (fun i => nth i l d) (seq 0 (length l)).
 Proof.
   induction l as [|x l IH]; [reflexivity|]. cbn [length seq map nth]. f_equal.
@@ -1006,16 +1010,15 @@ Theorem fast_pre_compute_eq_partial zs en ks en' :
 Proof.
   intros Hd Hinv. pose proof (draw_ks_length _ _ _ _ Hd) as Hl. cbv zeta in Hinv.
   unfold fast_pre_compute. rewrite Hd. f_equal. f_equal.
-  rewrite (list_as_map_nth 0 ks) at 3. rewrite Hl, map_map.
-  apply map_ext_in. intros i Hi. apply in_seq in Hi.
+  transitivity (map (pre_entry ZOps) (map (fun i => nth i ks 0) (seq 0 32)));
+    [|f_equal; rewrite <- Hl; symmetry; apply list_as_map_nth].
+  rewrite map_map. apply map_ext_in. intros i Hi. apply in_seq in Hi.
   set (Zs := map (fun i => jac_Z ZOps (sm2_mulG ZOps (nth i ks 0)) (nth i zs 1)) (seq 0 32)) in *.
   assert (HZl : length Zs = 32%nat) by (unfold Zs; rewrite map_length, seq_length; reflexivity).
   pose proof (batch_inv_correct sm2_p p_pos (inv_p ZOps) Zs ltac:(lia)) as Hb.
   rewrite HZl in Hb. specialize (Hb Hinv i ltac:(lia)).
   assert (HZi : nth i Zs 0 = jac_Z ZOps (sm2_mulG ZOps (nth i ks 0)) (nth i zs 1)).
-  { unfold Zs. rewrite nth_indep with (d' := jac_Z ZOps (sm2_mulG ZOps (nth 0 ks 0)) (nth 0 zs 1))
-      by (rewrite map_length, seq_length; lia).
-    rewrite map_nth, seq_nth by lia. reflexivity. }
+  { unfold Zs. apply (nth_map_seq (fun i => jac_Z ZOps (sm2_mulG ZOps (nth i ks 0)) (nth i zs 1))). lia. }
   rewrite HZi in Hb.
   unfold fast_pre_slot, pre_entry, x1_of. f_equal. f_equal.
   pose proof (mulG_ok (nth i ks 0)) as Hok.
